@@ -138,6 +138,58 @@ def best_single_move_gain(c, table):
     return best
 
 
+def copeland(table):
+    """(scores, victories, equalities, defeats) per element index, from a cost table: 1 point for each opponent it is
+    cheaper to place before than after, 1/2 when both placements cost the same"""
+    bef, aft = table[:, :, 0], table[:, :, 1]
+    n = bef.shape[0]
+    off = ~np.eye(n, dtype=bool)
+    v = ((bef < aft) & off).sum(axis=1)
+    d = ((aft < bef) & off).sum(axis=1)
+    e = ((bef == aft) & off).sum(axis=1)
+    return v + e / 2.0, v, e, d
+
+
+def groups_by(values, elems, decreasing=False):
+    """ranking with ties of `elems` by increasing (decreasing) value, tied exactly on equal values"""
+    order = sorted(set(values.tolist()), reverse=decreasing)
+    where = {val: [] for val in order}
+    for e, val in zip(elems, values.tolist()):
+        where[val].append(e)
+    return [where[val] for val in order]
+
+
+def borda(dataset, elems, use_bucket_id, unified):
+    """mean positional score per element index (exact Fractions as (total, count)): the number of elements strictly before
+    it (or its bucket index); unranked elements form one last bucket (`unified`) or are skipped"""
+    from fractions import Fraction
+    idx = elements_index(elems)
+    n = len(elems)
+    tot = [0] * n
+    cnt = [0] * n
+    for r in dataset:
+        before = 0
+        seen = set()
+        for bi, b in enumerate(r):
+            for e in b:
+                i = idx[e]
+                tot[i] += bi if use_bucket_id else before
+                cnt[i] += 1
+                seen.add(i)
+            before += len(b)
+        if unified and len(seen) < n:
+            val = len(r) if use_bucket_id else before
+            for i in range(n):
+                if i not in seen:
+                    tot[i] += val
+                    cnt[i] += 1
+    return [Fraction(t, c) if c else None for t, c in zip(tot, cnt)]
+
+
+def universe_complete_or(fam, ds):
+    return True
+
+
 def selftest(rng=None):
     """cross-check against the exact model on small random cases; raises AssertionError on disagreement"""
     import random
@@ -159,4 +211,15 @@ def selftest(rng=None):
         base = ref.kemeny(cand, ds, sch)
         want = max([base - ref.kemeny(nr, ds, sch) for _e, _d, nr in ref.single_moves(cand)] + [0])
         assert ref.fr(gain) == want, ("best move", ds, sch, cand, gain, float(want))
+        sc, v, e_, d_ = copeland(t)
+        exp_r, exp_score, exp_ved = ref.copeland(ds, sch)
+        assert [ref.fr(x) for x in sc.tolist()] == [exp_score[x] for x in elems], ("copeland", ds, sch)
+        assert [[int(a), int(b), int(c)] for a, b, c in zip(v, e_, d_)] == [exp_ved[x] for x in elems]
+        assert [set(g) for g in groups_by(sc, elems, decreasing=True)] == [set(g) for g in exp_r]
+        fam = ref.borda_family(sch)
+        if fam is not None and universe_complete_or(fam, ds):
+            for ub in (False, True):
+                means = borda(ds, elems, ub, fam == "unified")
+                exp_rank, exp_mean = ref.borda(ds, sch, ub)
+                assert all(means[i] == exp_mean[x] for i, x in enumerate(elems) if x in exp_mean), ("borda", ds, sch, ub)
     return True
